@@ -39,10 +39,12 @@ META = dict(
                  "lower/upper snapping: coordinate inside [first edge, last edge]",
                  "ties (two equally near edges / intervals) may be resolved either way",
                  "constants that are floats in the source (c, sqrt(3), 0.5, 1e-4) are their exact rational values; the CFL bound is demanded up to a relative 1e-9",
+                 "uniformity detection is pinned down except for a relative 1e-9 band around the documented 1e-4 tolerance edge (the source evaluates it in floats)",
+                 "UniformGrid nearest-interval obligations: the two rounded quantities are not within 1e-3 of a rounding tie",
                  "cases other than construct-*/uniform-resolve-*: edge arrays and np.diff widths injected into an instance built by the real constructor (the construct-* cases prove that is what __post_init__ stores)"],
     outside="cell counts beyond the bound; QuasiUniformGrid; float round-off (near-ties); calculate_time_offset_yee, polygon masks",
-    bounds=dict(quick=dict(cells_symbolic_axis="1..4", sizes="every interval size -1..n+1", axes="rotating"),
-                thorough=dict(cells_symbolic_axis="1..5", sizes="every interval size -1..n+1", axes="all")),
+    bounds=dict(quick=dict(cells_symbolic_axis="1..4", sizes="every interval size -1..n+1", axes="rotating", construct="one symbolic axis n<=3, 1x1x1 all symbolic", measure="2x2x2 all symbolic, 5 boxes"),
+                thorough=dict(cells_symbolic_axis="1..5", sizes="every interval size -1..n+1", axes="all", construct="one symbolic axis n<=4, all symbolic up to 2x1x2", measure="2x2x2, 3x2x1, 1x2x3")),
     timeout_ms=dict(quick=30000, thorough=120000),
 )
 
@@ -61,12 +63,12 @@ def cases(tier, seed):
             out.append(dict(name=f"snap-n{n}-ax{ax}", kind="snap", n=n, ax=ax))
             out.append(dict(name=f"center-n{n}-ax{ax}", kind="center", n=n, ax=ax))
             out.append(dict(name=f"anchor-n{n}-ax{ax}", kind="anchor", n=n, ax=ax))
-    for n in ([1, 2, 3, 4] if th else [1, 3]):
-        for ax in range(3):
-            if not th and ax != (n + 1) % 3:
-                continue
-            out.append(dict(name=f"construct-n{n}-ax{ax}", kind="construct", shape=[n if a == ax else 0 for a in range(3)], cfl=n <= 3))
-    for shape in ([[1, 1, 1], [2, 1, 1], [1, 2, 1], [1, 1, 2]] if th else [[1, 1, 1], [2, 1, 1]]):
+    for n, ax in ([(n, ax) for n in (1, 2, 3, 4) for ax in range(3)] if th else [(1, 2), (2, 0), (3, 1)]):
+        out.append(dict(name=f"construct-n{n}-ax{ax}", kind="construct", shape=[n if a == ax else 0 for a in range(3)], cfl=n <= 3))
+    # the other two axes concrete and exactly uniform (spacing 1): uniformity then hinges on the symbolic axis
+    for n, ax in ([(n, ax) for n in (1, 2, 3) for ax in range(3)] if th else [(2, 1), (1, 0)]):
+        out.append(dict(name=f"construct-n{n}-ax{ax}-u", kind="construct", shape=[n if a == ax else -1 for a in range(3)]))
+    for shape in ([[1, 1, 1], [2, 1, 1], [1, 2, 1], [1, 1, 2]] if th else [[1, 1, 1]]):
         out.append(dict(name="construct-" + "x".join(map(str, shape)), kind="construct", shape=shape))
     if th:
         out.append(dict(name="construct-2x1x2", kind="construct", shape=[2, 1, 2], cfl=False))
@@ -75,7 +77,7 @@ def cases(tier, seed):
         out.append(dict(name="measure-" + "x".join(map(str, shape)), kind="measure", shape=shape))
     for n in ([2, 3, 4, 6] if th else [2, 3, 4]):
         for ax in range(3):
-            if not th and ax != n % 3:
+            if (not th and ax != n % 3) or (n == 6 and ax == 0):
                 continue
             out.append(dict(name=f"reduce-sym-n{n}-ax{ax}", kind="reduce", n=n, ax=ax))
     out.append(dict(name="uniform-snap", kind="usnap"))
@@ -342,11 +344,8 @@ def _explore(c, name, fn, post, assume, replay, key, max_paths):
         hard = [p for p in parts if not (isinstance(p, (bool, np.bool_)) and p)]
         if not hard:
             hard = [True]
+        hard = [p for p in hard if not (isinstance(p, z3.ExprRef) and z3.is_true(z3.simplify(p)))] or [True]
         for k, p in enumerate(hard):
-            if isinstance(p, z3.ExprRef):
-                sp = z3.simplify(p)
-                if z3.is_true(sp) and len(hard) > 1:
-                    continue
             c.prove(f"{name}#path{ex.paths}" + (f".{k}" if len(hard) > 1 else ""), p, pc, replay, key)
 
     try:
@@ -511,6 +510,25 @@ def _case_anchor(c, st, G, case):
     c.witness("twin: position strictly between the sides", z3.And(pos.t > -1, pos.t < 1, pos.t != 0), inc + pc)
 
 
+def _uniformity(A, e3):
+    """documented uniformity test: every width within a relative 1e-4 of the first x width, plus a round-off floor
+    8*eps*max|edge| per float axis (none for a symbolic axis: reals).  Returns (tight, loose): the predicate must be
+    True when ``tight`` holds and may only be True when ``loose`` holds (a relative 1e-9 band around the edge is left
+    open: the source evaluates the test in floats)."""
+    w3 = [[e[i + 1] - e[i] for i in range(len(e) - 1)] for e in e3]
+    s = w3[0][0]
+    rt = Fraction(1e-4)  # the float literal of the source, exactly
+    band = Fraction(1, 10**9)
+    tight, loose = [], []
+    for e, ws in zip(e3, w3):
+        symbolic = A.exact and any(isinstance(x, z3.ExprRef) for x in e)
+        floor = Fraction(0) if symbolic else 16 * Fraction(2) ** -52 * max(abs(Fraction(float(x))) for x in e)
+        for w in ws:
+            tight.append(A.le(A.abs(w - s), A.n(rt * (1 - band)) * s))
+            loose.append(A.le(A.abs(w - s), A.n(rt * (1 + band)) * s + A.n(floor)))
+    return A.all(tight), A.all(loose)
+
+
 def _o_construct(A, v, res, exc):
     """stored edges are the inputs; widths are edge differences; per-axis minimum; uniformity = every width within the
     documented relative 1e-4 of the first x width; uniform_spacing raises iff not uniform; CFL bound."""
@@ -528,16 +546,12 @@ def _o_construct(A, v, res, exc):
     cl.append(tuple(res["shape"]) == tuple(len(e) - 1 for e in e3))
     cl.append(A.eq(res["min"], A.min([w for ws in w3 for w in ws])))
     s = w3[0][0]
-    rt = A.n(Fraction(1e-4))  # the float literal of the source, exactly
-    uni = A.all(A.le(A.abs(w - s), rt * s) for ws in w3 for w in ws)
+    tight, loose = _uniformity(A, e3)
     if A.exact:
         got = A._b(res["is_uniform"])
-        cl.append(got == uni)
+        cl += [z3.Implies(tight, got), z3.Implies(got, loose)]
     else:
-        # float replay: only clear cases (the tolerance edge itself is round-off)
-        far = any(abs(w - s) > Fraction(10001, 100000000) * s for ws in w3 for w in ws)
-        near = all(abs(w - s) < Fraction(9999, 100000000) * s for ws in w3 for w in ws)
-        cl.append((not far or not res["is_uniform"]) and (not near or bool(res["is_uniform"])))
+        cl.append((bool(loose) or not res["is_uniform"]) and (not tight or bool(res["is_uniform"])))
     isu = res["is_uniform"]
     if res["uniform_spacing"] is None:
         cl.append(A.implies(isu, A.false()) if A.exact else not isu)
@@ -566,6 +580,8 @@ def _case_construct(c, st, G, case):
     for a, n in enumerate(shape):
         if n == 0:
             e3.append(list(next(oth)))
+        elif n < 0:
+            e3.append([float(i) for i in range(-3, 4 + len(e3))])  # 7 / 8 unit cells
         else:
             es, inc = _sym_edges("xyz"[a], n)
             e3.append(es)
@@ -597,14 +613,13 @@ def _case_construct(c, st, G, case):
     if not case.get("cfl", True):
         return
     # the CFL bound as stated (relative 1e-9 for the float constants), by regime of the (oracle-side) uniformity predicate
-    ws = [pysym.term(e[i + 1]) - pysym.term(e[i]) for e in e3 for i in range(len(e) - 1)]
-    s0 = ws[0]
-    rt = z3.RealVal(Fraction(1e-4))
-    uni = z3.And(*[z3.And(w - s0 <= rt * s0, s0 - w <= rt * s0) for w in ws])
-    exact = z3.And(*[w == s0 for w in ws])
+    terms = _map(e3, lambda x: x.t if _is_sym(x) else x)
+    ws = [pysym.term(e[i + 1]) - pysym.term(e[i]) for e in terms for i in range(len(e) - 1)]
+    _, uni = _uniformity(AZ, terms)
+    exact = z3.And(*[w == ws[0] for w in ws])
     tight, loose = Fraction(1, 10**9), Fraction(1001, 10**7)
     regimes = [("widths not uniform within 1e-4", [z3.Not(uni)], "metric-branch", tight)]
-    if all(n > 0 for n in shape):
+    if all(n != 0 for n in shape):
         regimes += [("exactly uniform", [exact], "exactly-uniform", tight),
                     ("uniform within 1e-4, bound up to 1.001e-4", [uni], "near-uniform-weak", loose),
                     ("uniform within 1e-4", [uni], "near-uniform", tight)]
@@ -745,7 +760,7 @@ def _case_reduce(c, st, G, case):
     es, inc = _sym_edges("e", n)
     c.symvars += n + 1
     oth_n = {a: len(e) - 1 for a, e in enumerate(_edges3(ax, es))}
-    for sv in (1, -1, 0):
+    for sv in ((1, -1, 0) if n <= 3 else (1, -1)):  # sv = 0 merely re-runs __post_init__ on the full axis (construct-* cases)
         for other_sym in (False, True):
             sym = [0, 0, 0]
             sym[ax] = sv
@@ -866,13 +881,19 @@ def _case_uint(c, st, G, case):
         d = A.abs(a - v["target"])
         return A.all([sz, A.le(2 * d, v["s"]) if nearest else A.le(d, v["s"])])
 
+    def no_tie(q):
+        """q is not within 1e-3 of a rounding tie k + 1/2 (which way a tie goes is float round-off)."""
+        f = q - z3.ToReal(z3.ToInt(q))
+        return z3.Or(f <= z3.RealVal("0.499"), f >= z3.RealVal("0.501"))
+
     for size in case["sizes"]:
         for nearest in (True, False):
             sfx = "nearest" if nearest else "within-one-cell"
-            check(c, st, f"UniformGrid.bounds_for_center[size={size},{sfx}]", f"UniformGrid.bounds_for_center:{sfx}:{'odd' if size % 2 else 'even'}-size", inputs, cs + pc,
+            nt = [no_tie((tgt.t - ctr[ax].t) / s.t), no_tie((pos.t + 1) / 2 * size)] if nearest else []
+            check(c, st, f"UniformGrid.bounds_for_center[size={size},{sfx}]", f"UniformGrid.bounds_for_center:{sfx}:{'odd' if size % 2 else 'even'}-size", inputs, cs + pc + nt[:1],
                   lambda v, size=size: _ug(G, v).bounds_for_center(ax, v["target"], size),
                   lambda A, v, res, exc, size=size, nearest=nearest: o_int(A, v, res, exc, size, A.n(Fraction(1, 2)), nearest))
-            check(c, st, f"UniformGrid.bounds_for_anchor[size={size},{sfx}]", f"UniformGrid.bounds_for_anchor:{sfx}", inputs, cs + pc,
+            check(c, st, f"UniformGrid.bounds_for_anchor[size={size},{sfx}]", f"UniformGrid.bounds_for_anchor:{sfx}", inputs, cs + pc + nt,
                   lambda v, size=size: _ug(G, v).bounds_for_anchor(ax, size, v["target"], v["position"]),
                   lambda A, v, res, exc, size=size, nearest=nearest: o_int(A, v, res, exc, size, (v["position"] + 1) / 2, nearest))
     c.witness("twin", z3.And(pos.t > 0, tgt.t < ctr[1].t), cs + pc)
@@ -931,10 +952,11 @@ def _case_uresolve(c, st, G, case):
         ug = _ug(G, v)
         g = ug.resolve(shape)
         out = dict(edges=[list(np.asarray(g.edges(a))) for a in range(3)], is_uniform=g.is_uniform, us=g.uniform_spacing, dt=g.cfl_time_step(v["cf"]), min=g.min_spacing)
-        if not _has_sym(v):
-            cfgu = SimulationConfig(time=1e-15, grid=ug, courant_factor=v["cf"])
-            cfgr = SimulationConfig(time=1e-15, grid=g, courant_factor=v["cf"])
-            out["dt_cfg"] = [cfgu.time_step_duration, cfgr.time_step_duration]
+        cfgu = SimulationConfig(time=1e-15, grid=ug, courant_factor=v["cf"], backend="cpu")
+        cfgr = SimulationConfig(time=1e-15, grid=g, courant_factor=v["cf"], backend="cpu")
+        out["dt_cfg"] = [cfgu.time_step_duration, cfgr.time_step_duration]
+        out["us_cfg"] = [cfgu.uniform_spacing(), cfgr.uniform_spacing()]
+        out["nonuniform_cfg"] = [cfgu.has_nonuniform_grid, cfgr.has_nonuniform_grid]
         return out
 
     def oracle(A, v, res, exc):
@@ -950,8 +972,11 @@ def _case_uresolve(c, st, G, case):
         c0 = A.n(Fraction(C0))
         bound = v["cf"] * (1 + A.n(Fraction(1, 10**9)))
         cl += [A.lt(0, dt), A.le(3 * dt * dt * c0 * c0, bound * bound * v["s"] * v["s"])]
-        if "dt_cfg" in res:
-            cl += [abs(Fraction(float(x)) - Fraction(float(res["dt"]))) <= Fraction(1, 10**12) * Fraction(float(res["dt"])) for x in res["dt_cfg"]]
+        for x in res["dt_cfg"]:  # SimulationConfig.time_step_duration, unresolved and resolved grid
+            x = A.real(x)
+            cl += [A.lt(0, x), A.le(3 * x * x * c0 * c0, bound * bound * v["s"] * v["s"])]
+        cl += [A.eq(x, v["s"]) for x in res["us_cfg"]]
+        cl += [x is False or x == False for x in res["nonuniform_cfg"]]  # noqa: E712
         return A.all(cl)
 
     check(c, st, f"resolve{shape}", "UniformGrid.resolve", inputs, cs + ccf, call, oracle, max_paths=20000)
